@@ -54,9 +54,21 @@ def runOne (payload : String) : String × Bool :=
         | _ => false
       (t, nt)
 
-def runCase (payload : String) : String :=
+/-- `listed id`: known_findings.txt (read by `run`) has a `known:` line for this id -/
+def runCase (listed : String → Bool) (payload : String) : String :=
   -- a case the harness did not run any more (its family was found endless on this tree)
   if payload == "skip" then "SKIP\tskip=1" else
+  match payload.splitOn " @kf:" with
+  | [p1, rest] =>
+    -- the code as it is deviates from the property here in a known way: result of the program as it is,
+    -- spec= result of the program that says what the property demands
+    (match rest.splitOn "@ " with
+     | id :: p2s =>
+       let (t1, nt) := runOne p1
+       let (t2, _) := runOne ("@ ".intercalate p2s)
+       t1 ++ (if nt then "\tnt=1" else "") ++ "\tspec=" ++ t2 ++ (if listed id && t1 != t2 then "\tkf=" ++ id else "")
+     | [] => "bad-payload")
+  | _ =>
   match payload.splitOn " @@ " with
   | [p1, p2] =>
     -- two readings of the property for this program: Go may agree with either
@@ -67,5 +79,20 @@ def runCase (payload : String) : String :=
     let (t, nt) := runOne payload
     t ++ (if nt then "\tnt=1" else "")
 
-def run (_args : List String) : IO Unit := lineLoop runCase
+/-- the ids of the known findings of C04 listed in known_findings.txt of the directory the check runs in
+    (a finding class is only reported as KNOWN-FINDING once it is listed there) -/
+def knownIds : IO (List String) := do
+  let path : System.FilePath := "known_findings.txt"
+  if !(← path.pathExists) then return []
+  let txt ← IO.FS.readFile path
+  pure ((txt.splitOn "\n").filterMap fun l =>
+    if l.startsWith "known:" && (l.splitOn "property=C04 ").length > 1 then
+      match (l.splitOn "id=") with
+      | _ :: r :: _ => (r.splitOn " ").head?
+      | _ => none
+    else none)
+
+def run (_args : List String) : IO Unit := do
+  let ids ← knownIds
+  lineLoop (runCase fun id => ids.contains id)
 end Ecal.Drv.C04
